@@ -686,11 +686,11 @@ class History:
                 why = R.sort_verdict(before, after, c)
                 R.consistent(vals, c)  # does the comparator throw on these elements?
             except R.Throw as t:
-                # aborted sort: the order is implementation-defined, but still a permutation
+                # aborted sort (ES2023: SortIndexedProperties completes abruptly before
+                # anything is written back): the receiver is unchanged
                 exp_res = ["throw", self.cv(t.value)]
-                why = R.sort_verdict(before, after, lambda x, y: -1.0)
-                if why == "undefined not last":
-                    why = None
+                same = len(after) == len(before) and all(R.same_value(x, y) for x, y in zip(after, before))
+                why = None if same else "changed by an aborted sort"
             if why:
                 try:
                     if R.consistent([x for x in before if x is not UNDEF], c):
